@@ -393,7 +393,13 @@ func enumC10(tier string, e *engine.Emitter) {
 					hs, _ = impl.Hunks(d)
 					p0, rerr = impl.Read(at).Diff(impl.Read(bt)).RenderPatch()
 				})
-				if rerr != nil || len(hs) == 0 || inexpressible(hs) != "" {
+				if rerr != nil || len(hs) == 0 {
+					continue
+				}
+				if inexpressible(hs) != "" {
+					// jd rendered a patch although its own reader cannot express the path:
+					// its own output must still read back and reproduce b
+					e.Do(engine.Case{Kind: "c10own", Leg: l.Name + "/own-output", A: at, B: bt, C: at, X: p0})
 					continue
 				}
 				targets := []string{at, bt}
